@@ -110,8 +110,27 @@ def run_leaf(ctx):
         ctx.compare("spec.lex", {"case": case, "text": t}, "T" if ok else "F", rep.vals[0] if rep.ok else rep.raw, nontrivial=ok)
 
 
+def run_fixed_witnesses(ctx):
+    """witnesses of the C11 leaf findings recorded as fixed: must pass on every run"""
+    from ofxtools import Types as T
+    from framework import run_impl
+    for v in (D("1E+2"), D("0E-7"), D("1.5E-7"), D("-0E+2"), D("NaN"), D("sNaN"), D("Infinity"), D("-Infinity")):
+        r = run_impl(T.Decimal().unconvert, v)
+        case = {"conv": {"ctor": ["Decimal", []], "required": False}, "op": "unconvert", "value": repr(v)}
+        if r[0] == "ok" and not tc.ref_lex(["decimal", "none"], r[1]):
+            ctx.violate(lex_tag(["decimal", "none"], v, r[1]), case, f"Decimal().unconvert({v!r}) -> {r[1]!r}")
+        ctx.evaluations += 1
+    for b in (True, False):
+        r = run_impl(T.Integer().unconvert, b)
+        if r[0] == "ok":
+            ctx.violate("integer_bool_text", {"conv": {"ctor": ["Integer", []], "required": False}, "op": "unconvert",
+                                              "value": repr(b)}, f"Integer().unconvert({b}) -> {r[1]!r}")
+        ctx.evaluations += 1
+
+
 def run(ctx):
     run_leaf(ctx)
+    run_fixed_witnesses(ctx)
     try:
         wire = importlib.import_module("corr.C11_wire")
     except ImportError:
